@@ -1,6 +1,7 @@
 package main
 
 import (
+	"bytes"
 	"encoding/json"
 	"fmt"
 	"math"
@@ -8,6 +9,7 @@ import (
 	"strconv"
 	"sync/atomic"
 
+	"github.com/antchfx/xpath"
 	"xvh/vdoc"
 )
 
@@ -27,10 +29,12 @@ type f64Case struct {
 	} `json:"w"`
 }
 
-func f64Doc(vals []string) *vdoc.Doc {
+func f64Doc(vals []string) (*vdoc.Doc, []int) {
+	ids := []int{}
 	rows := [][]interface{}{{"root", "", 0, "", "", ""}, {"elem", "r", 1, "", "", ""}}
 	for i, v := range vals {
 		rows = append(rows, []interface{}{"elem", "v" + strconv.Itoa(i+1), 2, "", "", ""})
+		ids = append(ids, len(rows))
 		if v != "" {
 			rows = append(rows, []interface{}{"text", "", len(rows), v, "", ""})
 		}
@@ -41,16 +45,31 @@ func f64Doc(vals []string) *vdoc.Doc {
 		fmt.Fprintf(os.Stderr, "xvh: f64 document: %v\n", err)
 		os.Exit(2)
 	}
-	return d
+	return d, ids
 }
 
+// f64Placeholders: the characters put in place of '~' (the specification's "a character outside the Number grammar"):
+// everything Unicode calls white space but XPath does not, and a few look-alikes.
+var f64Placeholders = []string{"~", "\u00a0", "\u2003", "\u3000", "\u0085", "\v", "\f", "\u202f", "\u2028", "\u0661", "\uff11"}
+
 func (w *worker) runF64(line int, raw []byte) {
+	if bytes.IndexByte(raw, '~') >= 0 {
+		for _, ph := range f64Placeholders {
+			q, _ := json.Marshal(ph)
+			w.runF64One(line, bytes.ReplaceAll(raw, []byte("~"), q[1:len(q)-1]))
+		}
+		return
+	}
+	w.runF64One(line, raw)
+}
+
+func (w *worker) runF64One(line int, raw []byte) {
 	var c f64Case
 	if err := json.Unmarshal(raw, &c); err != nil {
 		fmt.Fprintf(os.Stderr, "xvh: line %d: bad f64 case: %v\n", line, err)
 		os.Exit(2)
 	}
-	d := f64Doc(c.Vals)
+	d, vids := f64Doc(c.Vals)
 	wj, _ := json.Marshal(c.W)
 	var evals int64
 	// from the root and from the element r (absolute paths: the context must not matter); Evaluate twice on the
@@ -76,6 +95,34 @@ func (w *worker) runF64(line int, raw []byte) {
 			switch {
 			case o.Panic != "":
 				fail = "panic:" + o.Panic
+			case c.W.T == "ns":
+				// a node-set: the children v_i of r whose index the specification lists
+				var idx []int
+				json.Unmarshal(c.W.V, &idx)
+				want := map[int]bool{}
+				for _, i := range idx {
+					want[vids[i-1]] = true
+				}
+				it, ok := v.(*xpath.NodeIterator)
+				if !ok {
+					o.Msg = fmt.Sprintf("%T", v)
+					fail = "type"
+					break
+				}
+				got, _ := drain(it, runawayLimit)
+				o.IDs = got
+				seen := map[int]bool{}
+				for _, g := range got {
+					if !want[g] {
+						fail = "extra"
+					}
+					seen[g] = true
+				}
+				for g := range want {
+					if !seen[g] && fail == "" {
+						fail = "missing"
+					}
+				}
 			case c.W.T == "b":
 				want := string(c.W.V) == "true"
 				g, ok := v.(bool)
